@@ -1498,6 +1498,7 @@ impl Compiler {
                         prim,
                         sn,
                         span,
+                        prim == Inventory,
                         self,
                     )));
                 };
@@ -1544,6 +1545,7 @@ impl Compiler {
                     ImplPrimitive::RowsSub(sub, prim == Inventory),
                     sn,
                     span,
+                    prim == Inventory,
                     self,
                 )
             }
@@ -1580,6 +1582,7 @@ impl Compiler {
                             Table,
                             SigNode::new(sn.sig, node),
                             table_span,
+                            false,
                             comp,
                         ),
                     }
@@ -2365,13 +2368,15 @@ fn construct_extracted_monadic_modifier<T>(
     m: T,
     mut sn: SigNode,
     span: usize,
+    boxes_results: bool,
     comp: &Compiler,
 ) -> Node {
     if comp.in_fill {
         return node_kind(m, eco_vec![sn], span);
     }
     let (node, extracted) = extract_node_pervasives(sn.node);
-    if node.is_empty() {
+    // A modifier that boxes its results does so even if nothing else is left for it to do
+    if node.is_empty() && !boxes_results {
         return extracted;
     }
     sn.node = node;
